@@ -162,7 +162,15 @@ func definedBy(g *chk.Graph, pat string, checks ...chk.HoleCheck) func(ast.Expr)
 		}
 		// through a chain of temporaries
 		if r := g.Fn.Resolve(id); r != ast.Expr(id) {
-			return g.Fn.MatchWith(pat, r, checks...) != nil
+			if g.Fn.MatchWith(pat, r, checks...) != nil {
+				return true
+			}
+			// the chain ends at a local defined by a tuple-valued call (`v, err := F(..)`)
+			if rid, isId := ast.Unparen(r).(*ast.Ident); isId {
+				if rhs2, _ := g.DefOf(rid, g.FactSite(rid)); rhs2 != nil && g.Fn.MatchWith(pat, rhs2, checks...) != nil {
+					return true
+				}
+			}
 		}
 		return false
 	}
@@ -1455,6 +1463,9 @@ func assignCommitsRule(p *chk.Prog, r *chk.Report) {
 func pureCheckRule(p *chk.Prog, x *chk.R, fns [][3]string) {
 	for _, fn := range fns {
 		f := p.LookupFunc(fn[0], fn[1], fn[2])
+		if f == nil && fn[2] == "sharingOK" {
+			f = c01ShareFnOnly(p) // renamed or turned into a method: found by its role in checkSharing
+		}
 		if f == nil {
 			continue // folded into its callers: nothing to judge here (the callers' rules apply)
 		}
@@ -1825,3 +1836,320 @@ func appendSameKeyRule(x *chk.R, p *chk.Prog, pkgs ...string) int {
 	}
 	return n
 }
+
+// scanLeftEarly: the loop that contains the node, or a loop around it, can be left before its last element: a return,
+// a break (of this loop or of one around it), a continue of a loop around it, or a goto out of the body. It returns
+// the offending statement or nil. Statements inside function literals do not count.
+func scanLeftEarly(f *chk.Fn, inner ast.Node) ast.Node {
+	var loops []ast.Stmt
+	if s, ok := inner.(*ast.RangeStmt); ok {
+		loops = append(loops, s)
+	} else if s, ok := inner.(*ast.ForStmt); ok {
+		loops = append(loops, s)
+	}
+	for l := f.LoopOf(inner); l != nil; l = f.LoopOf(l) {
+		loops = append(loops, l)
+	}
+	for _, l := range loops {
+		var body *ast.BlockStmt
+		switch x := l.(type) {
+		case *ast.RangeStmt:
+			body = x.Body
+		case *ast.ForStmt:
+			body = x.Body
+		}
+		own := ""
+		if ls, ok := f.Prog.Parent(l).(*ast.LabeledStmt); ok {
+			own = ls.Label.Name
+		}
+		inside := map[string]bool{}
+		ast.Inspect(body, func(n ast.Node) bool {
+			if ls, ok := n.(*ast.LabeledStmt); ok {
+				inside[ls.Label.Name] = true
+			}
+			return true
+		})
+		var bad ast.Node
+		var visit func(root ast.Node, breakable bool)
+		visit = func(root ast.Node, breakable bool) {
+			ast.Inspect(root, func(n ast.Node) bool {
+				if bad != nil || n == nil {
+					return false
+				}
+				if n == root {
+					return true
+				}
+				switch x := n.(type) {
+				case *ast.FuncLit:
+					return false
+				case *ast.ForStmt, *ast.RangeStmt, *ast.SwitchStmt, *ast.TypeSwitchStmt, *ast.SelectStmt:
+					visit(n, true)
+					return false
+				case *ast.ReturnStmt:
+					bad = x
+				case *ast.BranchStmt:
+					switch x.Tok {
+					case token.BREAK:
+						if x.Label == nil && !breakable || x.Label != nil && !inside[x.Label.Name] {
+							bad = x
+						}
+					case token.CONTINUE:
+						if x.Label != nil && x.Label.Name != own && !inside[x.Label.Name] {
+							bad = x
+						}
+					case token.GOTO:
+						if x.Label != nil && !inside[x.Label.Name] {
+							bad = x
+						}
+					}
+				}
+				return true
+			})
+		}
+		visit(body, false)
+		if bad != nil {
+			return bad
+		}
+	}
+	return nil
+}
+
+// litFieldPlace: the expression is the field `field` of a value of the named struct type (x.field), or a local variable
+// that is handed over as that field in the only composite literal of the type in the function (`T{field: local}`): the
+// same place under construction, whether the struct is filled field by field or built at the end from locals.
+func litFieldPlace(f *chk.Fn, typ *types.Named, field string) func(ast.Expr) bool {
+	var locals []types.Object
+	nlit := 0
+	if typ != nil && f.Body != nil {
+		ast.Inspect(f.Body, func(n ast.Node) bool {
+			cl, ok := n.(*ast.CompositeLit)
+			if !ok {
+				return true
+			}
+			t := f.Info().TypeOf(cl)
+			if t == nil || !types.Identical(t, typ) {
+				return true
+			}
+			nlit++
+			for _, e := range cl.Elts {
+				kv, ok := e.(*ast.KeyValueExpr)
+				if !ok {
+					continue
+				}
+				if k, ok := kv.Key.(*ast.Ident); ok && k.Name == field {
+					if id, ok := ast.Unparen(kv.Value).(*ast.Ident); ok {
+						if v, isVar := f.ObjOf(id).(*types.Var); isVar && !v.IsField() && v.Pos() > f.Body.Pos() {
+							locals = append(locals, v)
+						}
+					}
+				}
+			}
+			return true
+		})
+	}
+	return func(e ast.Expr) bool {
+		if sel, ok := ast.Unparen(e).(*ast.SelectorExpr); ok && sel.Sel.Name == field {
+			if s, isSel := f.Info().Selections[sel]; isSel && s.Kind() == types.FieldVal {
+				rt := s.Recv()
+				if pt, isPtr := rt.Underlying().(*types.Pointer); isPtr {
+					rt = pt.Elem()
+				}
+				return typ == nil || types.Identical(rt, typ)
+			}
+			return false
+		}
+		if nlit != 1 {
+			return false
+		}
+		if id, ok := ast.Unparen(e).(*ast.Ident); ok {
+			for _, l := range locals {
+				if f.ObjOf(id) == l {
+					return true
+				}
+			}
+		}
+		return false
+	}
+}
+
+// mapWalk is a loop that visits every entry of a map: `for k, v := range M`, or `for _, k := range KEYS` over a local
+// list that holds exactly the keys of M (a snapshot taken because the body changes M), the entry being M[k].
+type mapWalk struct {
+	rs       *ast.RangeStmt
+	key, val func(ast.Expr) bool
+}
+
+func mapWalks(f *chk.Fn, g *chk.Graph, isMap func(ast.Expr) bool) []mapWalk {
+	var out []mapWalk
+	for _, rs := range f.RangeLoops(func(ast.Expr) bool { return true }) {
+		if isMap(rs.X) {
+			// a loop that only collects the keys is the first half of a snapshot walk, not a walk of its own
+			if len(rs.Body.List) == 1 && rs.Value == nil {
+				if as, ok := rs.Body.List[0].(*ast.AssignStmt); ok && len(as.Rhs) == 1 && f.MatchWith("append(L, K)", as.Rhs[0], chk.H("K", rangeKey(f, rs))) != nil {
+					continue
+				}
+			}
+			out = append(out, mapWalk{rs, rangeKey(f, rs), rangeVal(f, rs)})
+			continue
+		}
+		if _, isSlice := f.Info().TypeOf(rs.X).Underlying().(*types.Slice); !isSlice {
+			continue
+		}
+		list := rs.X
+		if rid, isId := ast.Unparen(f.Resolve(list)).(*ast.Ident); isId {
+			list = rid // a plain copy of the collected list
+		}
+		if filteredKeys(f, g, list, isMap, func(*ast.RangeStmt, bool) chk.Guard { return chk.NoGuard }) {
+			key := rangeVal(f, rs)
+			out = append(out, mapWalk{rs, key, definedBy(g, "M[K]", chk.H("M", isMap), chk.H("K", key))})
+		}
+	}
+	return out
+}
+
+// sharedConfigRule (shared by C20 and C18): the parsed configuration is shared, not copied: the reconcilers keep the
+// value they delivered last and compare every newly parsed configuration with it (reflect.DeepEqual) on their own
+// goroutine, without the handlers' lock, while the handlers work on the very same objects under the lock. Both only
+// hold together if nothing outside package internal/config ever stores into a configuration value: a store is a data
+// race with that comparison, and afterwards the remembered configuration never equals a freshly parsed one, so every
+// event looks like a configuration change. Decided syntactically over every function of the module outside
+// internal/config (tests and e2e tooling excluded):
+//
+//	(a) no assignment, ++/--, delete or clear whose target is a field or element reached through a value of a type
+//	    declared in internal/config;
+//	(b) ipaddr.NewPrefix - which rewrites the IP of the network it is given - is only handed the address of a network
+//	    built or copied in the calling function (&net.IPNet{...} or the address of a local value);
+//	(c) no in-place sort / reverse of a slice reached through such a value.
+func sharedConfigRule(p *chk.Prog, r *chk.Report) {
+	x := r.Rule("SHARED-CONFIG", "D ownership (effects)", "outside package internal/config nothing stores into a configuration value (a type declared in internal/config, or a net.IPNet handed to ipaddr.NewPrefix, which rewrites its IP): no assignment / ++ / delete through a config-typed value, ipaddr.NewPrefix only on the address of a network built or copied locally, no in-place sort of a slice reached through a config value. The reconcilers compare the configuration they delivered last with every new one by reflect.DeepEqual without the handlers' lock", 1)
+	cfgPath := chk.Module + "/" + cfgPkg
+	isCfgType := func(t types.Type) bool {
+		for i := 0; i < 3 && t != nil; i++ {
+			if pt, ok := t.(*types.Pointer); ok {
+				t = pt.Elem()
+				continue
+			}
+			break
+		}
+		n, ok := t.(*types.Named)
+		return ok && n.Obj().Pkg() != nil && n.Obj().Pkg().Path() == cfgPath
+	}
+	// reachedThroughConfig: some prefix of the access path has a configuration type
+	var through func(f *chk.Fn, e ast.Expr) bool
+	through = func(f *chk.Fn, e ast.Expr) bool {
+		e = ast.Unparen(e)
+		switch v := e.(type) {
+		case *ast.SelectorExpr:
+			if id, isId := ast.Unparen(v.X).(*ast.Ident); isId {
+				if _, isPkg := f.Info().Uses[id].(*types.PkgName); isPkg {
+					return false
+				}
+			}
+			return isCfgType(f.Info().TypeOf(v.X)) || through(f, v.X)
+		case *ast.IndexExpr:
+			return isCfgType(f.Info().TypeOf(v.X)) || through(f, v.X)
+		case *ast.StarExpr:
+			return isCfgType(f.Info().TypeOf(v.X)) || through(f, v.X)
+		case *ast.SliceExpr:
+			return through(f, v.X)
+		}
+		return false
+	}
+	nSites := 0
+	for _, f := range p.Funcs() {
+		if f.Decl == nil || f.Pkg == nil || f.Body == nil {
+			continue
+		}
+		pp := f.Pkg.PkgPath
+		if pp == cfgPath || strings.HasPrefix(pp, cfgPath+"/") || strings.Contains(pp, "/e2etest") || strings.HasSuffix(pp, "/configmaptocrs") || strings.HasSuffix(p.Fset.Position(f.Decl.Pos()).Filename, "_test.go") {
+			continue // the parser itself; test tooling; the offline ConfigMap converter (no reconcilers)
+		}
+		f := f
+		throughShared := through
+		// a struct value held in a local of this function is a copy: storing into its fields changes the copy (what the
+		// copy still shares through maps, slices and pointers is not tracked - see DESIGN)
+		through := func(f2 *chk.Fn, e ast.Expr) bool {
+			root := ast.Unparen(e)
+			for {
+				switch v := root.(type) {
+				case *ast.SelectorExpr:
+					root = ast.Unparen(v.X)
+					continue
+				case *ast.IndexExpr:
+					root = ast.Unparen(v.X)
+					continue
+				}
+				break
+			}
+			if id, isId := root.(*ast.Ident); isId {
+				if v, isVar := f.ObjOf(id).(*types.Var); isVar && !v.IsField() && v.Pos() > f.Body.Pos() && v.Pos() < f.Body.End() {
+					if _, isStruct := v.Type().Underlying().(*types.Struct); isStruct {
+						return false
+					}
+				}
+			}
+			return throughShared(f2, e)
+		}
+		ast.Inspect(f.Body, func(n ast.Node) bool {
+			switch st := n.(type) {
+			case *ast.AssignStmt:
+				for _, l := range st.Lhs {
+					if _, isId := ast.Unparen(l).(*ast.Ident); isId {
+						continue
+					}
+					if through(f, l) {
+						nSites++
+						x.Fail("store@"+f.Name()+":"+types.ExprString(l), st.Pos(), "a store into a configuration value outside internal/config: the configuration is shared with the reconcilers' lock-free comparison (data race; the remembered configuration stops being equal to a fresh one)")
+					}
+				}
+			case *ast.IncDecStmt:
+				if through(f, st.X) {
+					nSites++
+					x.Fail("store@"+f.Name()+":"+types.ExprString(st.X), st.Pos(), "a store into a configuration value outside internal/config")
+				}
+			case *ast.CallExpr:
+				if id, isId := ast.Unparen(st.Fun).(*ast.Ident); isId && (id.Name == "delete" || id.Name == "clear") {
+					if _, isB := f.Info().Uses[id].(*types.Builtin); isB && len(st.Args) > 0 && through(f, &ast.IndexExpr{X: st.Args[0]}) {
+						nSites++
+						x.Fail("store@"+f.Name()+":"+id.Name+"("+types.ExprString(st.Args[0])+")", st.Pos(), "entries of a configuration map are removed outside internal/config")
+					}
+					return true
+				}
+				fo, _ := f.Callee(st).(*types.Func)
+				if fo == nil || fo.Pkg() == nil {
+					return true
+				}
+				full := fo.FullName()
+				switch {
+				case full == "github.com/mikioh/ipaddr.NewPrefix" && len(st.Args) == 1:
+					nSites++
+					arg := ast.Unparen(st.Args[0])
+					fresh := false
+					if u, isU := arg.(*ast.UnaryExpr); isU && u.Op == token.AND {
+						switch y := ast.Unparen(u.X).(type) {
+						case *ast.CompositeLit:
+							fresh = true
+						case *ast.Ident:
+							// the address of a local value (a copy made here)
+							if v, isVar := f.ObjOf(y).(*types.Var); isVar && !v.IsField() && v.Pos() > f.Body.Pos() && v.Pos() < f.Body.End() {
+								if _, isPtr := v.Type().Underlying().(*types.Pointer); !isPtr {
+									fresh = true
+								}
+							}
+						}
+					}
+					x.Check("NewPrefix-arg@"+f.Name(), st.Pos(), fresh, "", "ipaddr.NewPrefix rewrites the IP of the network it is given (n.IP = n.IP.To16()); here it is handed a network that is not built or copied in this function - a pool's CIDR is part of the shared configuration: data race with the reconcilers' comparison, and the remembered configuration never equals a freshly parsed one again (every event re-delivers the pools and re-syncs every Service)")
+				case (fo.Pkg().Path() == "sort" && (fo.Name() == "Slice" || fo.Name() == "SliceStable" || fo.Name() == "Strings" || fo.Name() == "Ints" || fo.Name() == "Sort" || fo.Name() == "Stable")) ||
+					(fo.Pkg().Path() == "slices" && (strings.HasPrefix(fo.Name(), "Sort") || fo.Name() == "Reverse")):
+					if len(st.Args) > 0 && through(f, st.Args[0]) {
+						nSites++
+						x.Fail("sort@"+f.Name()+":"+types.ExprString(st.Args[0]), st.Pos(), "a slice of the shared configuration is reordered in place outside internal/config")
+					}
+				}
+			}
+			return true
+		})
+	}
+	x.Check("mutator-sites-found", 0, nSites >= 1, "", "no call of ipaddr.NewPrefix found (the rule's positive example): the allocator's address cursor moved - review")
+}
+
